@@ -34,6 +34,7 @@ Findings on this tree (listed in known_findings.d/C15.json, input classes exclud
       block functions are compiled with the template-level eval context.
 """
 import json
+import os
 import random
 import re
 import warnings
@@ -155,6 +156,10 @@ def stream(env, entry, entry_src, data, allowed):
     try:
         t = env.from_string(entry_src) if entry is None else env.get_template(entry)
         for chunk in t.generate(data):
+            if not isinstance(chunk, str):
+                # a filter section whose filter returns a non-string makes the template yield it as is; render()
+                # then fails in concat with this TypeError
+                raise TypeError("sequence item: expected str instance, %s found" % type(chunk).__name__)
             chunks.append(chunk)
     except AssertionError as e:
         if not str(e).startswith("expected length >="):
@@ -461,11 +466,16 @@ def shards(tier):
     return [{"i": i} for i in range(16)]
 
 
+def scale(n):
+    """VERIF_SCALE (default 1) shrinks the case counts: development / sensitivity aid only, a registered run uses 1."""
+    return max(20, int(n * float(os.environ.get("VERIF_SCALE", "1") or 1)))
+
+
 def run_shard(spec, ctx):
     rec = core.Rec()
-    core.hyp_shard(esc_cases(ctx.pick(14, 20)), check_case, ctx, ctx.pick(1100, 16000), rec=rec, tag="esc")
+    core.hyp_shard(esc_cases(ctx.pick(14, 20)), check_case, ctx, scale(ctx.pick(1100, 16000)), rec=rec, tag="esc")
     if not rec.violations:
-        core.hyp_shard(tset_cases(not ctx.quick), check_case, ctx, ctx.pick(300, 5000), rec=rec, tag="tset")
+        core.hyp_shard(tset_cases(not ctx.quick), check_case, ctx, scale(ctx.pick(300, 5000)), rec=rec, tag="tset")
     return rec
 
 
